@@ -215,6 +215,14 @@ structure Ext where
       operation on them is an event) may say that the borrow of a handle is the handle. `none` = stuck. -/
   refMut : Inputs → Value → St → Option Res := fun _ _ _ => Option.none
   -- [threads] end
+  -- [shm] begin: added hook (has a default, so `Ext.none` and every `{ Ext.none with .. }` are unchanged)
+  /-- `let x: *const T = v;` / `let x: *mut T = v;` where `v` is an object of the dictionary: the declared POINTEE
+      type is static information the dynamically typed interpreter does not have; a dictionary whose raw
+      pointers need it (pointer arithmetic `p.add(1)` counts in elements of `T`) may return the pointer
+      retyped.  Consulted only when an object of a dictionary (or a field-less `enumv`) is bound by a `let` WITH a
+      declared type; `none` = the value unchanged. -/
+  letPtr : String → Value → Option Value := fun _ _ => Option.none
+  -- [shm] end
 
 /-- the empty dictionary -/
 def Ext.none : Ext where
@@ -560,6 +568,14 @@ def setField : Value → String → Value → Option Value
   | .ctimespec _ n, "tv_sec", .int _ s => some (.ctimespec s n)
   | .ctimespec s _, "tv_nsec", .int _ n => some (.ctimespec s n)
   | _, _, _ => none
+
+-- [shm] begin: fields of a tuple struct
+/-- the name under which the `i`-th field of a tuple struct `struct S(A, B)` is kept (`s.0`, `s.1`; the translator
+    lists them as `0`, `1`, … in the `structs` table) -/
+def tupleFieldName : Nat → String
+  | 0 => "0" | 1 => "1" | 2 => "2" | 3 => "3"
+  | n => toString n
+-- [shm] end
 
 def listGet : List Value → Nat → Option Value
   | [], _ => none
@@ -1331,6 +1347,22 @@ def hasMutRefParam : List (Pat × String) → Bool
   | (_, ty) :: rest => if ty.startsWith "&mut" = true then true else hasMutRefParam rest
 -- [poller] end
 
+-- [shm] begin: `let x: *const T = v` (see `Ext.letPtr`)
+/-- the value a `let` with the declared type `ty` binds: an object of the dictionary (or a symbolic name) bound
+    under a declared type may be retyped by the dictionary (`Ext.letPtr`, which matches the raw pointer types it
+    knows); every other value, and every `let` without a declared type, binds the value as it is -/
+def letValue (ext : Ext) (ty : Option String) : Value → Value
+  | .ext tag args =>
+    match ty with
+    | some t => (ext.letPtr t (.ext tag args)).getD (.ext tag args)
+    | none => .ext tag args
+  | .enumv p [] =>
+    match ty with
+    | some t => (ext.letPtr t (.enumv p [])).getD (.enumv p [])
+    | none => .enumv p []
+  | v => v
+-- [shm] end
+
 /-- bind the arguments to the parameter patterns (ascribing the declared types) -/
 def bindParams : Nat → String → List (Pat × String) → List Value → Option (List (String × Value))
   | 0, _, _, _ => none
@@ -1401,6 +1433,9 @@ def eval : Nat → Ctx → Frame → Expr → St → Res
       (eval n ctx fr e st).bind fun v st =>
         match v with
         | .tuple vs => orStuck "tuple index out of range" (listGet vs i) fun w => .val w st
+        -- [shm] begin: `s.0` on a value of a tuple struct (a `struct` value whose fields are named `0`, `1`, …)
+        | .struct _ fs => orStuck "tuple struct: no such field" (envGet fs (tupleFieldName i)) fun w => .val w st
+        -- [shm] end
         | _ => .stuck "tuple index on a non-tuple"
     -- [threads] `f(|| g(x, y))` / `f(move || g(x, y))`: a call whose only argument is a parameterless closure that
     -- does nothing but call a path on LOCAL VARIABLES (`spawn(move || shm_writer::run(ctx, max_drift_ppb))`).  Such a
@@ -1763,7 +1798,8 @@ def evalBlock : Nat → Ctx → Frame → List Stmt → St → Res
       (eval n ctx fr init st).bind fun v st =>
         orStuck "let: value does not fit the declared type" (ascribe (ty.getD "") v) fun v' =>
           -- a plain `let` only accepts irrefutable patterns (compiler-checked): the test is ignored
-          orStuck "let: pattern without a rule" (matchPat n fr.selfTy pat v') fun (_, bs) =>
+          -- [shm] `letValue`: a declared raw-pointer type may retype an object of the dictionary (`Ext.letPtr`)
+          orStuck "let: pattern without a rule" (matchPat n fr.selfTy pat (letValue ctx.ext ty v')) fun (_, bs) =>
             evalBlock n ctx fr rest { st with env := bs ++ st.env }
     | .letS _ _ none _ => .stuck "let without initialiser"
     | .letS pat ty (some init) (some els) =>
